@@ -438,6 +438,8 @@ func (r *rng) encCfg() encCfg {
 	c.preserve = r.chance(1, 4)
 	if r.chance(1, 5) {
 		c.headerSize = 12
+	} else if r.chance(1, 6) { // a caller-supplied size that is neither 12 nor 14 must come out as 14
+		c.headerSize = byte(r.pick(0, 1, 11, 13, 15, 20, 255))
 	}
 	if r.chance(1, 4) {
 		c.profileVer = uint16(r.intn(30000))
